@@ -29,10 +29,21 @@ fn lit(r: &mut StdRng, needle: &[u8]) -> String {
 
 /// returns {"simd": bool, "runs": [{"anchor": k (0 = production random), "out": "ok"|"panic", "res": bool}]}
 pub fn observe(r: &mut StdRng, hay: &[u8], needle: &[u8]) -> Value {
+    observe_after(r, hay, needle, &[])
+}
+
+/// `prior`: patterns whose filters are compiled first and stay alive while the case runs; afterwards each of them is
+/// executed as well (runs with anchor = 1000 + index)
+pub fn observe_after(r: &mut StdRng, hay: &[u8], needle: &[u8], prior: &[Vec<u8>]) -> Value {
     let s = scheme();
     let src = format!("s contains {}", lit(r, needle));
     let mut ctx = ExecutionContext::<()>::new(s);
     ctx.set_field_value(s.get_field("s").unwrap(), hay.to_vec()).unwrap();
+    wirefilter::verif::set_contains_anchor(None);
+    let alive: Vec<Option<wirefilter::Filter>> = prior.iter().map(|p| {
+        let src = format!("s contains {}", quoted_text(r, p));
+        catch_unwind(AssertUnwindSafe(|| s.parse(&src).unwrap().compile())).ok()
+    }).collect();
     let mut runs = Vec::new();
     let mut anchors: Vec<usize> = vec![0, 0];
     anchors.extend(1..needle.len().max(1));
@@ -48,6 +59,16 @@ pub fn observe(r: &mut StdRng, hay: &[u8], needle: &[u8]) -> Value {
         });
     }
     wirefilter::verif::set_contains_anchor(None);
+    for (k, f) in alive.iter().enumerate() {
+        let rr = match f {
+            Some(f) => catch_unwind(AssertUnwindSafe(|| f.execute(&ctx).unwrap())).ok(),
+            None => None,
+        };
+        runs.push(match rr {
+            Some(b) => json!({"anchor": 1000 + k, "out": "ok", "res": b}),
+            None => json!({"anchor": 1000 + k, "out": "panic", "res": false}),
+        });
+    }
     json!({"simd": wirefilter::verif::simd_active(), "runs": runs, "src": src})
 }
 
